@@ -32,6 +32,11 @@ class C07(ProgProp):
         # (no harness subclass: reads and restoration are still checked, the LIFO log is not)
         if rng.random() < 0.4:
             case["spec"]["plain_overrides"] = True
+        elif rng.random() < 0.15:
+            # a context hook that raises a BaseException (not an Exception) at a seeded point: the
+            # other overrides must still be undone
+            case["spec"].setdefault("faults", {}).setdefault("ctx", {})["#%d" % rng.randint(1, 4)] = [rng.choice(["pause", "resume"]), rng.randint(2, 3), "base"]
+            case["spec"]["ctx_fault"] = True
         return case
 
 
